@@ -192,6 +192,13 @@ func replayNative(id string, spec *ReplaySpec, v *Violation, repo string) {
 			fmt.Fprintf(&sb, "\tverifModel[%q] = %s\n", k, v.Model[k])
 		}
 	}
+	if len(v.Schedule) > 0 {
+		parts := make([]string, len(v.Schedule))
+		for i, s := range v.Schedule {
+			parts[i] = fmt.Sprint(s)
+		}
+		fmt.Fprintf(&sb, "\tverifSchedule = []int{%s}\n\tverifUseSched = true\n", strings.Join(parts, ", "))
+	}
 	fmt.Fprintf(&sb, "\tverifReplayRun(%s, %q, %v)\n}\n", v.Harness, v.AssertID, v.Kind == "panic")
 	testFile := filepath.Join(d, base+"_test.go")
 	os.WriteFile(testFile, []byte(sb.String()), 0o644)
@@ -211,6 +218,21 @@ func replayNative(id string, spec *ReplaySpec, v *Violation, repo string) {
 			real = filepath.Join(workDir(id), f)
 		}
 		ov[filepath.Join(pkgDir, "zz_verif_"+filepath.Base(f))] = substPkg(real, pkgName, d)
+	}
+	// schedule replays: instrumented copies of the files whose atomics are scheduling points
+	for _, rel := range spec.Instrument {
+		src, err := os.ReadFile(filepath.Join(repo, rel))
+		if err != nil {
+			continue
+		}
+		ins, err := InstrumentAtomics(src)
+		if err != nil {
+			v.Note += " (instrumentation failed: " + err.Error() + ")"
+			continue
+		}
+		out := filepath.Join(d, base+"_instr_"+filepath.Base(rel))
+		os.WriteFile(out, ins, 0o644)
+		ov[filepath.Join(repo, rel)] = out
 	}
 	ovFile := filepath.Join(d, base+".overlay.json")
 	ob, _ := json.Marshal(map[string]interface{}{"Replace": ov})
